@@ -6,6 +6,8 @@ import (
 	"testing"
 
 	"verifsim/core"
+	_ "verifsim/sims/dbsim"
+	_ "verifsim/sims/migsim"
 	_ "verifsim/sims/queuesim"
 	_ "verifsim/sims/toysim"
 	_ "verifsim/sims/vaultsim"
